@@ -802,11 +802,12 @@ _SELECTORS = {}
 def selector_of(prog, c):
     """[(argument index, projection suffix)] when the callee is a small local function without side effects that
     returns one of >= 2 different places of its parameters, else None"""
-    key = c.resolved or c.callee
+    fkey = c.resolved or c.callee
+    key = (id(prog), fkey)
     if key in _SELECTORS:
         return _SELECTORS[key]
     _SELECTORS[key] = None
-    cb = prog.body(key) if key else None
+    cb = prog.body(fkey) if fkey else None
     if cb is None or cb.kind not in ("Fn", "AssocFn") or len(cb.blocks) > 16:
         return None
     if any(not is_transparent(x) for x in cb.calls):
